@@ -65,6 +65,22 @@ var SizeTargets = []int{100, 255, 256, 257, 1023, 1024, 1025, 3000, 4095, 4096, 
 // array elements, many fields.
 var PadPlaces = []string{"pre:0", "post:1", "obj.s", "obj.l", "obj.x"}
 
+// RawStyles are wrap texts with bytes that are not valid UTF-8 (written in the escaped form of a Case, see Raw) and with
+// genuine U+FFFD characters: a Latin-1 text, a lone continuation byte, a truncated multi-byte sequence, 0xFF.
+var RawStyles = []Wrap{
+	{Pre: "caf" + Esc([]byte{0xe9}) + ": ", Post: ""},
+	{Pre: "", Post: " (key " + Esc([]byte{0x80, 'k', 0xff}) + ")"},
+	{Pre: "\uFFFD<", Post: ">\uFFFD"},
+	{Pre: Esc([]byte{0xf0, 0x9f, 0x98}) + "\uFFFD", Post: Esc([]byte{0xef, 0xbf})},
+}
+
+// RawObjects are objects whose strings hold genuine U+FFFD characters / bytes that are not valid UTF-8 (json.Marshal
+// writes U+FFFD for those).
+var RawObjects = []*Obj{
+	{S: "a\uFFFDb\uFFFD", N: 3, L: []string{"\uFFFD", "x"}, X: map[string]string{"k\uFFFD": "\uFFFD\uFFFD v"}},
+	{S: "na" + Esc([]byte{0xef}) + "ve " + Esc([]byte{0xff, 0xfe}), N: -1, L: []string{Esc([]byte{0xc3}), "\uFFFD"}, In: &Obj{S: Esc([]byte{0xed, 0xa0, 0x80})}},
+}
+
 // Messages of the exhaustive code part.
 var Messages = []string{"", "ha ha", "file does not exist", "internal system error", "a: b: c", "100%d", "\x1b", "\x1bjso", "json",
 	`{"a":1}`, "rpc error: code = OK desc = ", "日本語 😀", "\x1bjso\x1bjso n"}
@@ -178,9 +194,40 @@ func TestC19Exhaustive(t *testing.T) {
 			}
 		}
 	}
+	// extraction targets and raw bytes: every list up to depth 2 over (two plain styles + the RawStyles) x coded classes x
+	// embedding level x (two plain objects + the RawObjects) x (plain extraction + every kind of caller-owned target that
+	// is overwritten after each extraction)
+	owned := int64(0)
+	{
+		styles := append([]Wrap{Styles[1], Styles[3]}, RawStyles...)
+		objects := append([]*Obj{Objects[0], Objects[2]}, RawObjects...)
+		intos := append([]string{""}, IntoKinds...)
+		enum.Lists(len(styles), 2, 0, 1, func(idx []int) {
+			wraps := make([]Wrap, len(idx))
+			for i, e := range idx {
+				wraps[i] = styles[e]
+			}
+			for ci, cls := range CodedClasses {
+				if !mine() {
+					continue
+				}
+				for emb := 0; emb <= len(wraps); emb++ {
+					for oi, o := range objects {
+						for ii, into := range intos {
+							if (ci+oi+ii)%2 == 1 && len(wraps) == 2 {
+								continue // depth 2: half of the (class, object, target) combinations per list
+							}
+							run(Case{Kind: "chain", Chain: Chain{Class: cls, Wraps: wraps, Embed: emb, Obj: o, Into: into}})
+							owned++
+						}
+					}
+				}
+			}
+		})
+	}
 	if shard == 0 {
 		for code := uint32(0); code < NumCodes; code++ {
-			for _, m := range Messages {
+			for _, m := range append(append([]string{}, Messages...), RawStyles[0].Pre, RawStyles[1].Post) {
 				run(Case{Kind: "code", Code: code, Msg: m, Chain: Chain{Embed: -1}})
 				codesN++
 			}
@@ -191,6 +238,7 @@ func TestC19Exhaustive(t *testing.T) {
 		"wrap_styles": len(Styles), "wrap_depth": depth, "wrap_lists_this_shard": lists, "objects": len(Objects),
 		"chain_cases_this_shard": chains, "codes": NumCodes, "messages": len(Messages), "code_cases_this_shard": codesN,
 		"size_targets": SizeTargets, "pad_places": PadPlaces, "sized_chain_cases_this_shard": sized,
+		"raw_byte_styles": len(RawStyles), "raw_byte_objects": len(RawObjects), "extraction_target_kinds": IntoKinds, "owned_target_and_raw_byte_cases_this_shard": owned,
 		"batch_sizes": "2..8", "batch_cases_this_shard": batches, "twin_batch_cases_this_shard": twins, "shards": shards})
 }
 
@@ -339,8 +387,26 @@ var pieces = []string{"", " ", ": ", ":", "ctx", "a: b", "100%", "%w", "%s%d%v",
 	"rpc error: code = NotFound desc = ", "code = ", "file does not exist", "file already exists", "internal system error", "canceled",
 	"system communication error", "permission denied", "unimplemented"}
 
+// rawPieces: bytes that are not valid UTF-8 (escaped form, see Raw) and genuine U+FFFD characters.
+var rawPieces = []string{Esc([]byte{0xff}), Esc([]byte{0x80}), Esc([]byte{0xc3}), "caf" + Esc([]byte{0xe9}), Esc([]byte{0xed, 0xa0, 0x80}), Esc([]byte{0xf0, 0x9f, 0x98}),
+	Esc([]byte{0xef, 0xbf}), Esc([]byte{0xef, 0xbf, 0xbd}), Esc([]byte{0xc0, 0xaf}), "\uFFFD", "\uFFFD", "a\uFFFDb", "\uFFFD\uFFFD", "\uFFFD" + Esc([]byte{0xbd})}
+
+// dirtyTexts: while set, the texts drawn by genText mix in rawPieces (one chain in six draws its texts that way, so that
+// raw bytes in the wrap texts meet U+FFFD in the object's strings).
+type textMode struct{ dirty bool }
+
+var mode textMode
+
 // genText draws a text; the complete marker never appears inside one text (construction: a space is inserted).
 func genText(t *rapid.T, label string) string {
+	if mode.dirty && rapid.IntRange(0, 2).Draw(t, label+"Raw") > 0 {
+		ps := rapid.SliceOfN(rapid.OneOf(rapid.SampledFrom(rawPieces), rapid.SampledFrom(rawPieces), rapid.SampledFrom(pieces)), 1, 4).Draw(t, label+"RawPieces")
+		s := strings.ToValidUTF8(strings.Join(ps, ""), "?")
+		for strings.Contains(s, marker) {
+			s = strings.Replace(s, marker, "\x1b json", 1)
+		}
+		return s
+	}
 	var s string
 	switch rapid.IntRange(0, 9).Draw(t, label+"Kind") {
 	case 0, 1:
@@ -464,12 +530,19 @@ func genChain(t *rapid.T, big int) Chain {
 	// 40% of the chains are plain fmt chains; the others mix in levels with side branches (fmt with several %w,
 	// errors.Join) and GRPCWrap at inner levels
 	mixed := rapid.IntRange(0, 9).Draw(t, "mixed") >= 4
+	// one chain in six: raw bytes and U+FFFD in its texts and in the strings of its object
+	mode.dirty = rapid.IntRange(0, 5).Draw(t, "rawBytes") == 0
+	defer func() { mode.dirty = false }()
 	for i := range c.Wraps {
 		c.Wraps[i] = genLevel(t, mixed)
 	}
 	if rapid.IntRange(0, 3).Draw(t, "embed?") > 0 {
 		c.Embed = rapid.IntRange(0, depth).Draw(t, "embedLevel")
 		c.Obj = genObj(t, "obj.", 2)
+		// half of the chains with an object: the caller extracts into a target of its own and overwrites it afterwards
+		if rapid.Bool().Draw(t, "owned") {
+			c.Into = rapid.SampledFrom(IntoKinds).Draw(t, "into")
+		}
 	}
 	// one chain in ten is deep: one or two of its levels become runs of tens to thousands of identical levels (short
 	// texts: the message of a chain grows with every link); no length target then
